@@ -96,8 +96,11 @@ func (n *node[K, V]) search(t *BTree[K, V], key K, height int) (V, bool) {
 
 // Put inserts a new value into the B-tree.
 func (t *BTree[K, V]) Put(key K, val V) {
+	// Only a key that is absent (never put, or removed) adds to the size.
+	if _, ok := t.Get(key); !ok {
+		t.n++
+	}
 	u := t.root.insert(t, key, val, t.height, false)
-	t.n++
 	if u == nil {
 		return
 	}
